@@ -143,7 +143,7 @@ int main()
                 if (k == "f") p = gForeign[idx % 8];
                 else { if (idx >= ptrs.size()) { fprintf(stderr, "harness: release of an alloc that has not happened\n"); exit(3); } p = ptrs[idx]; }
                 unsigned long long id = 0, off; bool dangling = false;
-                if (k == "d" && p && findBlock(p, id, off) && gB[id].freed) { dangling = true; UNPOISON(gB[id].p, real(gB[id].sz)); }
+                if (k == "d" && p && findBlock(p, id, off) && gB[id].freed && !getenv("C18_STRICT_DANGLING")) { dangling = true; UNPOISON(gB[id].p, real(gB[id].sz)); }
                 if (via) wrap->free_memory(p, n, __FILE__, __LINE__); else cache->dealloc(p, n);
                 if (dangling) POISON(gB[id].p, real(gB[id].sz));
                 emit(o, false, 0);
